@@ -39,7 +39,7 @@ ASSUMPTIONS = [
     'thread clause: ops marked thread run in a fresh thread that is started and joined (sequential program order); arbitrary interleavings are decided in C19',
 ]
 BUDGET = {'quick': 16 * 1200, 'thorough': 16 * 12000}
-FLOORS = {'varargs_shift': 0.15, 'suspended_edit': 0.25, 'tag_edit': 0.4}
+FLOORS = {'varargs_shift': 0.143, 'suspended_edit': 0.237, 'tag_edit': 0.379}
 
 _NAMES_EXTRA = ['z0', 'nope']
 _TAGS = ['TagA', 'TagB', 'TagX']
